@@ -346,7 +346,7 @@ func ruleF2(c *Ctx) *RuleResult {
 			}
 		})
 		if !found {
-			r.fail("muxerPart.finalize|sequence-number", c.Pos(fin.Pos()), FuncName(fin), "a fragment's sequence number is its part id", "no SequenceNumber assignment")
+			r.undecided("%s: %s — %s (the construct this rule is anchored on was not found: no verdict)", "muxerPart.finalize|sequence-number", "a fragment's sequence number is its part id", "no SequenceNumber assignment")
 		}
 	}
 	return r
@@ -417,7 +417,7 @@ func ruleF3(c *Ctx) *RuleResult {
 	if okPrefix {
 		r.ok("filterOutHLSParams|prefix", c.Pos(filt.Pos()), FuncName(filt), "the filter drops keys with the _HLS_ prefix", "HasPrefix(k, \"_HLS_\")")
 	} else {
-		r.fail("filterOutHLSParams|prefix", c.Pos(filt.Pos()), FuncName(filt), "the filter drops keys with the _HLS_ prefix", "prefix test not found")
+		r.undecided("%s: %s — %s (the construct this rule is anchored on was not found: no verdict)", "filterOutHLSParams|prefix", "the filter drops keys with the _HLS_ prefix", "prefix test not found")
 	}
 	r.Instances = n
 	return r
@@ -547,7 +547,7 @@ func ruleF5(c *Ctx) *RuleResult {
 		})
 	}
 	if swapStore == nil || old == nil {
-		r.fail("fmp4WriteSample|swap", c.Pos(fn.Pos()), FuncName(fn), "the new sample replaces the look-ahead sample, which is taken out first", "swap `sample, next = next, sample` not found")
+		r.undecided("%s: %s — %s (the construct this rule is anchored on was not found: no verdict)", "fmp4WriteSample|swap", "the new sample replaces the look-ahead sample, which is taken out first", "swap `sample, next = next, sample` not found")
 		return r
 	}
 	r.ok("fmp4WriteSample|swap", c.Pos(swapStore.Pos()), FuncName(fn), "the new sample replaces the look-ahead sample, which is taken out first", "old = load, store of the parameter")
@@ -825,7 +825,7 @@ func ruleF7(c *Ctx) *RuleResult {
 			}
 		}
 		if len(fills) == 0 {
-			r.fail("runTraditional|fill", c.Pos(rt.Pos()), FuncName(rt), "runTraditional downloads segments through fillSegmentQueue", "no call found")
+			r.undecided("%s: %s — %s (the construct this rule is anchored on was not found: no verdict)", "runTraditional|fill", "runTraditional downloads segments through fillSegmentQueue", "no call found")
 		}
 		// wait bound
 		allInstrs(rt, func(in ssa.Instruction) {
@@ -968,7 +968,7 @@ func ruleF7(c *Ctx) *RuleResult {
 		if foundMax {
 			r.ok("fillSegmentQueue|max-distance", c.Pos(fq.Pos()), FuncName(fq), "falling more than clientLiveMaxDistanceFromEnd segments behind is an error", "invPos > clientLiveMaxDistanceFromEnd")
 		} else {
-			r.fail("fillSegmentQueue|max-distance", c.Pos(fq.Pos()), FuncName(fq), "falling more than clientLiveMaxDistanceFromEnd segments behind is an error", "comparison not found")
+			r.undecided("%s: %s — %s (the construct this rule is anchored on was not found: no verdict)", "fillSegmentQueue|max-distance", "falling more than clientLiveMaxDistanceFromEnd segments behind is an error", "comparison not found")
 		}
 	}
 	return r
@@ -1149,14 +1149,14 @@ func ruleN2(c *Ctx) *RuleResult {
 		}
 	})
 	if hold == "" {
-		r.fail("generateMediaPlaylistFMP4|part-hold-back", c.Pos(fn.Pos()), FuncName(fn), "PART-HOLD-BACK is the part target times a factor >= 2", "expression not found")
+		r.undecided("%s: %s — %s (the construct this rule is anchored on was not found: no verdict)", "generateMediaPlaylistFMP4|part-hold-back", "PART-HOLD-BACK is the part target times a factor >= 2", "expression not found")
 	} else if okHold {
 		r.ok("generateMediaPlaylistFMP4|part-hold-back", c.Pos(fn.Pos()), FuncName(fn), "PART-HOLD-BACK is the part target times a factor >= 2", hold)
 	} else {
 		r.fail("generateMediaPlaylistFMP4|part-hold-back", c.Pos(fn.Pos()), FuncName(fn), "PART-HOLD-BACK is the part target times a factor >= 2", hold)
 	}
 	if skip == "" {
-		r.fail("generateMediaPlaylistFMP4|can-skip-until", c.Pos(fn.Pos()), FuncName(fn), "CAN-SKIP-UNTIL is the target duration times at least 6 seconds", "expression not found")
+		r.undecided("%s: %s — %s (the construct this rule is anchored on was not found: no verdict)", "generateMediaPlaylistFMP4|can-skip-until", "CAN-SKIP-UNTIL is the target duration times at least 6 seconds", "expression not found")
 	} else if okSkip {
 		r.ok("generateMediaPlaylistFMP4|can-skip-until", c.Pos(fn.Pos()), FuncName(fn), "CAN-SKIP-UNTIL is the target duration times at least 6 seconds", skip)
 	} else {
